@@ -366,6 +366,14 @@ func (ex *Exec) conv(dst, src types.Type, x value) value {
 	case *types.Slice:
 		if sb, ok := us.(*types.Basic); ok && sb.Info()&types.IsString != 0 {
 			t := x.(*Term)
+			for !t.IsConst() && t.op == "ite" {
+				// a choice between strings: case split on the condition
+				if ex.branch(t.args[0]) {
+					t = t.args[1]
+				} else {
+					t = t.args[2]
+				}
+			}
 			if !t.IsConst() {
 				panic(unsupported{"[]byte(symbolic string)"})
 			}
